@@ -54,6 +54,8 @@ public:
    static constexpr char  ExcludeStart = '{';
    /// The end character for an exclude expression: Closing curly brace.
    static constexpr char  ExcludeEnd = '}';
+   /// Maximum number of levels that exclude expressions may be nested.
+   static constexpr int   MaxExcludeDepth = 20;
 
    /// Constructor.
    ///
